@@ -719,7 +719,9 @@ def rand_script(rng, tag):
         if kind < 0.5:
             body = "M117 %s %d" % (tag, i)
         elif kind < 0.8:
-            body = "M900 K0.%d%d" % (i, rng.randrange(1, 9)) if tag == "ENTER" else "M901 Q%d.%d" % (i, rng.randrange(1, 9))
+            # codes that occur nowhere else (neither in programs nor among the configured codes), so that a
+            # script line on the wire can never be mistaken for a deferred command of the program
+            body = "M950 K0.%d%d" % (i, rng.randrange(1, 9)) if tag == "ENTER" else "M951 Q%d.%d" % (i, rng.randrange(1, 9))
         else:
             body = "@verifnoop %s%d" % (tag.lower(), i)
         if rng.random() < 0.3:
